@@ -214,7 +214,7 @@ static int parse_equ(AsmContext *asm_context)
 {
   char token[TOKENLEN];
   char name[TOKENLEN];
-  char value[TOKENLEN];
+  char value[TOKENLEN + 1];
   int token_type;
 
   // Atmel's include files want:  .equ NAME = VALUE
@@ -239,6 +239,10 @@ static int parse_equ(AsmContext *asm_context)
     print_error_unexp(asm_context, token);
     return -1;
   }
+
+  // Like .define: a blank at the end separates the value from the token
+  // that follows the name where it is used.
+  strcat(value, " ");
 
   macros_append(asm_context, name, value, 0);
 
